@@ -422,6 +422,16 @@ impl<'a> Ref<'a> {
     fn label(&self, n: &str) -> usize {
         self.k.labels[n]
     }
+    /// the line RESUME NEXT continues with after line `e` failed: a FOR whose bounds or step failed did
+    /// not set up its loop, the statement that follows it is the one after NEXT (likewise SELECT CASE /
+    /// END SELECT); after any other line, the next line
+    fn after_failed(&self, e: usize) -> usize {
+        match &self.p.lines[e].1 {
+            L::For { .. } => self.k.mate[&e] + 1,
+            L::Select(_) => self.k.end_of[&e] + 1,
+            _ => e + 1,
+        }
+    }
 
     /// executes line `pc`; `eval` = a clause line reached by dispatch (to be evaluated)
     fn exec(&mut self, pc: usize, eval: bool) -> Result<Go, i32> {
@@ -608,7 +618,7 @@ impl<'a> Ref<'a> {
                         L::Resume => {
                             if self.err_eval { Go::Clause(e) } else { Go::To(e) }
                         }
-                        L::ResumeNext => Go::To(e + 1),
+                        L::ResumeNext => Go::To(self.after_failed(e)),
                         L::ResumeLabel(n) => {
                             // the label lives at the module level: the procedures in progress are left
                             self.frames.truncate(1);
@@ -702,7 +712,7 @@ impl<'a> Ref<'a> {
                                 break End::OutOfScope("error while a handler is active");
                             }
                             self.err_code = code;
-                            pc += 1;
+                            pc = self.after_failed(pc);
                             eval = false;
                         }
                         H::None => {
@@ -779,6 +789,9 @@ struct Snap {
     ha: usize,
     ea: Option<usize>,
     ec: Option<i32>,
+    regs: usize,
+    row: usize,
+    call_rows: Vec<usize>,
 }
 
 struct RealRun {
@@ -792,6 +805,10 @@ struct RealRun {
     table: String,
     class: Vec<u8>,
     target: Vec<usize>,
+    /// per pc: b'u' PushRegisters, b'o' PopRegisters, b'w' anything else
+    frame_op: Vec<u8>,
+    /// per pc: is it a recorded statement address
+    stmt_start: Vec<bool>,
 }
 
 const SNAP_CAP: usize = 3000;
@@ -821,6 +838,30 @@ fn run_real(text: &str, want_trace: bool, budget: u64) -> Result<RealRun, String
     let n = res.instructions.len();
     let mut class = vec![0u8; n];
     let mut target = vec![0usize; n];
+    let frame_op: Vec<u8> = res
+        .instructions
+        .iter()
+        .map(|ip| match ip.element {
+            Instruction::PushRegisters => b'u',
+            Instruction::PopRegisters => b'o',
+            _ => b'w',
+        })
+        .collect();
+    let mut stmt_start = vec![false; n + 1];
+    for a in &res.statement_addresses {
+        // the implicit declarations of variables are hoisted to the start of the module / procedure and
+        // carry the position of the first use: not statement starts of the source
+        let hoisted = matches!(
+            res.instructions.get(*a).map(|ip| &ip.element),
+            Some(Instruction::AllocateBuiltIn(_))
+                | Some(Instruction::AllocateFixedLengthString(_))
+                | Some(Instruction::AllocateArrayIntoA(_))
+                | Some(Instruction::AllocateUserDefined(_))
+        );
+        if *a <= n && !hoisted {
+            stmt_start[*a] = true;
+        }
+    }
     for (i, ip) in res.instructions.iter().enumerate() {
         let (c, t) = match &ip.element {
             Instruction::JumpIfFalse(AddressOrLabel::Resolved(a)) => (1, *a),
@@ -868,6 +909,9 @@ fn run_real(text: &str, want_trace: bool, budget: u64) -> Result<RealRun, String
                     ha: s.handler_address,
                     ea: s.last_error_address,
                     ec: s.last_error_code,
+                    regs: s.register_stack,
+                    row: s.row as usize,
+                    call_rows: s.stacktrace.iter().map(|(r, _)| *r as usize).collect(),
                 });
             } else {
                 v.1 = true;
@@ -896,7 +940,7 @@ fn run_real(text: &str, want_trace: bool, budget: u64) -> Result<RealRun, String
         let b = snaps.borrow();
         (b.0.clone(), b.1)
     };
-    Ok(RealRun { out, end, snaps: sn, capped, code, addrs, table, class, target })
+    Ok(RealRun { out, end, snaps: sn, capped, code, addrs, table, class, target, frame_op, stmt_start })
 }
 
 /// the events the Lean machine is driven with, derived from consecutive snapshots
@@ -964,6 +1008,8 @@ struct Pending {
 struct Ctx {
     rep: Report,
     pending: Vec<Pending>,
+    /// (signature, program, request, expected answer)
+    pending_frames: Vec<(String, String, String, String)>,
     jobs: Vec<Job>,
     model_every: usize,
     counter: usize,
@@ -997,6 +1043,8 @@ struct Job {
     trace: bool,
     matrix_key: Option<(String, String, String)>,
     big: bool,
+    /// check `register stack height = 1 + enclosing FOR statements` at every statement start
+    frames: bool,
 }
 
 struct Done {
@@ -1064,8 +1112,70 @@ fn record(cx: &mut Ctx, job: &Job, done: Done) -> Option<Failure> {
             End::OutOfScope(_) => "out-of-scope".to_owned(),
         }
     ));
-    // ---- ModelVsImpl: queue the machine run
+    // ---- register frames
     if job.trace && !real.snaps.is_empty() {
+        // ModelVsImpl: the stack height before every executed instruction, by the Lean frame model
+        let ops: Vec<&str> = real
+            .snaps
+            .iter()
+            .map(|sn| match real.frame_op.get(sn.pc) {
+                Some(b'u') => "u",
+                Some(b'o') => "o",
+                _ => "w",
+            })
+            .collect();
+        let want: Vec<String> = real.snaps.iter().map(|sn| sn.regs.to_string()).collect();
+        cx.pending_frames.push((sig.to_owned(), text.clone(), format!("(frames.depths ({}))", ops.join(" ")), format!("({})", want.join(" "))));
+    }
+    if job.frames && job.trace {
+        // ImplVsProperty (the typing of Thm.C05.frames_intact): at the first instruction of every statement
+        // the height is 1 + the FOR statements enclosing it + those enclosing the calls in progress
+        let mut depth = vec![0usize; job.p.lines.len()];
+        let mut d = 0usize;
+        for (i, (_, l)) in job.p.lines.iter().enumerate() {
+            match l {
+                L::For { .. } => {
+                    depth[i] = d;
+                    d += 1;
+                }
+                L::Next => {
+                    d = d.saturating_sub(1);
+                    depth[i] = d;
+                }
+                _ => depth[i] = d,
+            }
+        }
+        for sn in &real.snaps {
+            if !real.stmt_start.get(sn.pc).copied().unwrap_or(false) || sn.row == 0 || sn.row > job.p.lines.len() {
+                continue;
+            }
+            // the extra marks of FOR (before PopRegisters, the resume point of the header) and of procedure
+            // ends carry the position of the FOR / SUB statement: not statement starts of the source
+            if matches!(job.p.lines[sn.row - 1].1, L::For { .. } | L::Next | L::Sub(..) | L::Function(_) | L::EndSub | L::EndFunction) {
+                continue;
+            }
+            let mut expected = 1 + depth[sn.row - 1];
+            for r in &sn.call_rows {
+                if *r >= 1 && *r <= depth.len() {
+                    expected += depth[*r - 1];
+                }
+            }
+            cx.rep.bump("frames.statement-starts-checked");
+            if sn.regs != expected {
+                cx.rep.fail(Failure {
+                    kind: Kind::ImplVsProperty,
+                    signature: format!("frame-depth:{}", sig),
+                    input: text.clone(),
+                    implementation: format!("register stack height {} at row {} (pc {})", sn.regs, sn.row, sn.pc),
+                    expected: format!("height {} = 1 + enclosing FOR statements (+ those around the calls in progress, rows {:?})", expected, sn.call_rows),
+                    note: "the frame discipline proved in Thm/C05Frames.lean needs PushRegisters / PopRegisters to follow the loop depth on every edge".into(),
+                });
+                break;
+            }
+        }
+    }
+    // ---- ModelVsImpl: queue the machine run (for the GOTO families: one traced program in eight)
+    if job.trace && !real.snaps.is_empty() && (!job.frames || text.len() % 8 == 0) {
         let (evs, n_ev) = events(&real);
         let finished = n_ev == real.snaps.len();
         let expect_outcome = if !finished {
@@ -1120,7 +1230,7 @@ fn record(cx: &mut Ctx, job: &Job, done: Done) -> Option<Failure> {
 fn check(cx: &mut Ctx, p: &Prog, sig: &str, class: &str) {
     cx.counter += 1;
     let trace = cx.model_every > 0 && cx.counter % cx.model_every == 0;
-    cx.jobs.push(Job { p: p.clone(), sig: sig.to_owned(), class: class.to_owned(), trace, matrix_key: None, big: false });
+    cx.jobs.push(Job { p: p.clone(), sig: sig.to_owned(), class: class.to_owned(), trace, matrix_key: None, big: false, frames: false });
 }
 
 const THREADS: usize = 8;
@@ -1162,6 +1272,26 @@ fn run_jobs(cx: &mut Ctx) {
 }
 
 fn flush_model(cx: &mut Ctx) {
+    let pf = std::mem::take(&mut cx.pending_frames);
+    if !pf.is_empty() {
+        let reqs: Vec<String> = pf.iter().map(|p| p.2.clone()).collect();
+        let answers = ask(&reqs);
+        for ((sig, text, _, want), a) in pf.iter().zip(answers.iter()) {
+            cx.rep.bump("model.frame-runs-compared");
+            if a != want {
+                let (wv, av): (Vec<&str>, Vec<&str>) = (want.split(' ').collect(), a.split(' ').collect());
+                let k = wv.iter().zip(av.iter()).position(|(x, y)| x != y).unwrap_or(wv.len().min(av.len()));
+                cx.rep.fail(Failure {
+                    kind: Kind::ModelVsImpl,
+                    signature: format!("frame-machine:{}", sig.split(':').next().unwrap_or("")),
+                    input: text.clone(),
+                    implementation: format!("step {}: real register stack height {}", k, wv.get(k).unwrap_or(&"-")),
+                    expected: format!("RbModel.Frames.depths gives {}", av.get(k).unwrap_or(&"-")),
+                    note: "PushRegisters pushes a fresh frame, PopRegisters pops one, nothing else changes the height".into(),
+                });
+            }
+        }
+    }
     let pend = std::mem::take(&mut cx.pending);
     if pend.is_empty() {
         return;
@@ -1828,8 +1958,8 @@ fn goto_target_family(cx: &mut Ctx, rng: &mut Rng, thorough: bool) {
                         let sig = format!("goto-target:leaves-{}:label-in-{}", source.join("+"), label_host(chain, place, in_sub));
                         // the control machine is re-run on one program in twelve of this family
                         cx.counter += 1;
-                        let trace = cx.model_every > 0 && cx.counter % 12 == 0;
-                        cx.jobs.push(Job { p, sig, class: format!("goto-target.{}", place), trace, matrix_key: None, big: true });
+                        let trace = cx.model_every > 0 && (thorough || cx.counter % 2 == 0);
+                        cx.jobs.push(Job { p, sig, class: format!("goto-target.{}", place), trace, matrix_key: None, big: true, frames: true });
                         cx.rep.bump(&format!("goto-target-enclosing.{}", if chain.is_empty() { "none".to_owned() } else { chain.join(">") }));
                     }
                 }
@@ -2302,6 +2432,7 @@ fn main() {
     let mut cx = Ctx {
         rep,
         pending: vec![],
+        pending_frames: vec![],
         jobs: vec![],
         model_every: if std::env::var("VERIF_C05_NOMODEL").is_ok() { 0 } else if thorough { 3 } else { 4 },
         counter: 0,
@@ -2373,7 +2504,11 @@ fn main() {
                         let p = goto_out(ko, "for", ki, shape, guarded, in_sub);
                         let _ = (shape, guarded, in_sub);
                         let sig = format!("goto-out:from-{}:label-in-{}-body", ki, ko);
-                        check(&mut cx, &p, &sig, "goto-out-of-loop");
+                        {
+                    cx.counter += 1;
+                    let trace = cx.model_every > 0;
+                    cx.jobs.push(Job { p, sig, class: "goto-out-of-loop".to_owned(), trace, matrix_key: None, big: false, frames: true });
+                }
                     }
                 }
             }
@@ -2384,7 +2519,11 @@ fn main() {
                 let p = goto_out(ko, km, ki, 2, false, false);
                 let _ = km;
                 let sig = format!("goto-out:from-{}:label-in-{}-body", ki, ko);
-                check(&mut cx, &p, &sig, "goto-out-of-loop");
+                {
+                    cx.counter += 1;
+                    let trace = cx.model_every > 0;
+                    cx.jobs.push(Job { p, sig, class: "goto-out-of-loop".to_owned(), trace, matrix_key: None, big: false, frames: true });
+                }
             }
         }
     }
@@ -2409,7 +2548,7 @@ fn main() {
                 let sig = format!("onerr:{}:{}:{}", kind, pos, mode);
                 cx.counter += 1;
                 let trace = cx.model_every > 0 && (thorough || cx.counter % 2 == 0);
-                cx.jobs.push(Job { p, sig, class: format!("onerr.{}", mode), trace, matrix_key: Some(key), big: false });
+                cx.jobs.push(Job { p, sig, class: format!("onerr.{}", mode), trace, matrix_key: Some(key), big: false, frames: false });
             }
         }
     }
@@ -2463,6 +2602,6 @@ fn main() {
     }
     finder_contract(&mut cx, &mut rng, if thorough { 20_000 } else { 2_000 });
 
-    cx.rep.notes.push("reference semantics chosen where the property is silent: a FOR whose header failed and was skipped by RESUME NEXT runs its body once; RESUME NEXT after a failed IF/ELSEIF/WHILE/DO condition enters the block, after a failed SELECT CASE expression leaves the SELECT; RESUME label leaves the procedures in progress; errors raised while a handler is active are out of scope (not compared)".into());
+    cx.rep.notes.push("reference semantics chosen where the property is silent: RESUME NEXT after a failed FOR header (bounds or step) continues after NEXT and after a failed SELECT CASE expression after END SELECT (the statement did not set up its loop / selector); after a failed IF/ELSEIF/WHILE/DO condition it enters the block; RESUME label leaves the procedures in progress; errors raised while a handler is active are out of scope (not compared)".into());
     cx.rep.finish();
 }
